@@ -48,16 +48,19 @@ def decision_check(ctx, F, rule, sfx, which):
     s = faces.site(F, which)
     ctx.evaluations += s.ip.evaluations
     b = s.body
-    if not s.creations:
-        ctx.bad(rule, '%s:creation-site%s' % (which, sfx), 'no Option::get_or_insert(_with) on the per-plane slot inside the tetrahedron loop',
+    creations = s.creations
+    by_assignment = s.by_assignment
+    if not creations:
+        ctx.bad(rule, '%s:creation-site%s' % (which, sfx), 'no Option::get_or_insert(_with) on the per-plane slot inside the tetrahedron loop, and the record constructor is not gated by "slot is empty"',
                 'faces are created at most once per plane', where(b), key_extra='no-creation')
         return None
-    w = where(b, s.creations[0].line)
+    w = where(b, creations[0].line)
     # all creation events address the slot of plane K
-    for e in s.creations:
-        slot = repr(e.fargs[0])
-        ctx.check(rule, '%s:slot-is-plane-index%s' % (which, sfx), slot.endswith('[%s]' % s.Ktxt), slot[-100:], 'the slot indexed by the tetrahedron\'s plane_idx', where(b, e.line), key_extra='slot')
-    T, reach = faces.reached_table(s, s.creations)
+    if not by_assignment:
+        for e in creations:
+            slot = repr(e.fargs[0])
+            ctx.check(rule, '%s:slot-is-plane-index%s' % (which, sfx), slot.endswith('[%s]' % s.Ktxt), slot[-100:], 'the slot indexed by the tetrahedron\'s plane_idx', where(b, e.line), key_extra='slot')
+    T, reach = faces.reached_table(s, creations)
     bad = []
     for env in T.rows():
         row = tuple(env[n] for n in T.names)
